@@ -245,12 +245,21 @@ def explore(prop, tier, seed, workers=None, out=print):
     for clause, vs in sorted(by_clause.items()):
         if len(reported) >= 8:
             break
+        # violations inside the region of an open finding are attributed to it one by one (by the features of their own
+        # spec); whatever is left is a different violation of the same clause and is reported
+        rest = []
+        for x in vs:
+            fx = sorted(pr.features(x["spec"]))
+            hit = [e for e in findings.get("open", []) if match_finding(e, prop, clause, [fx])]
+            if hit:
+                known_hits[hit[0]["id"]] += 1
+            else:
+                rest.append(x)
+        if not rest:
+            continue
+        vs = rest
         v = vs[0]
         feats0 = sorted(pr.features(v["spec"]))
-        pre = [e for e in findings.get("open", []) if match_finding(e, prop, clause, [feats0])]
-        if pre and all(any(match_finding(e, prop, clause, [sorted(pr.features(x["spec"]))]) for e in pre) for x in vs[:10]):
-            known_hits[pre[0]["id"]] += len(vs)
-            continue
         ms, mres, nr = pr.minimise(v["spec"], clause, mbudget)
         featsm = sorted(pr.features(ms))
         hit = [e for e in findings.get("open", []) if match_finding(e, prop, clause, [feats0, featsm])]
